@@ -6,6 +6,20 @@ import os
 VERIF = os.path.dirname(os.path.dirname(os.path.abspath(__file__)))
 
 CLAIMED = {
+    "C10": dict(
+        category="translation_validation",
+        technique="CrossHair/z3 on index classification and key matching for symbolic indices/offsets; z3 validation of gtxn/absolute/relative contexts against all groups (16 slots symbolic)",
+        text="K: _get_index/get_index_and_field classify `gtxn i`, `int i; gtxns`, `txn GroupIndex (+|-) int k; gtxns` correctly for all i,k and is_value_matches_key matches exactly the key of the same field and index/offset (incl. negative offsets and the key-name round trip). S: for programs reading up to three group members, every non-default gtxn_context(i), absolute_context(i), relative_context(k) of every block on an accepting path admits the values of the transaction it speaks about, for all groups.",
+        note="'empty when i impossible' read against tealer's own listed indices; well-formed transactions in every slot",
+        design_ref="DESIGN.md section 4 C10",
+    ),
+    "C12": dict(
+        category="translation_validation",
+        technique="z3 symbolic execution restricted to executions whose main-graph block sequence starts with the dispatch path validates the contexts of the real construct_function() result; structure compared per path",
+        text="For every root-to-block prefix (length <= 3/4) of the main graph of each family program the real construct_function() is called; its contexts are validated (EXACT soundness of all keys, FREE exactness of GroupSize/GroupIndex) against exactly the executions that start with the path; isomorphism for [B0], error blocks on departures, shared subroutine objects and mirror relation are checked; graph immutability and order independence are compared as by-products.",
+        note="known findings KF-C12-early-exit-in-callee and KF-C12-path-through-loop are listed with specific attribution",
+        design_ref="DESIGN.md section 4 C12", engine="S+G",
+    ),
     "C02": dict(
         category="model_checking",
         technique="one z3 query per reported path (symbolic call stack and activation ids constrained to the reported block sequence) + z3 direct-check exploration for 'excluded at a block'",
@@ -78,7 +92,7 @@ CLAIMED = {
     ),
 }
 
-NOT_YET = {'C10': 'check under construction in this build round (see DESIGN.md section 9); not claimed yet', 'C11': 'check under construction in this build round (see DESIGN.md section 9); not claimed yet', 'C12': 'check under construction in this build round (see DESIGN.md section 9); not claimed yet', 'C13': 'check under construction in this build round (see DESIGN.md section 9); not claimed yet', 'C14': 'check under construction in this build round (see DESIGN.md section 9); not claimed yet', 'C15': 'check under construction in this build round (see DESIGN.md section 9); not claimed yet', 'C16': 'check under construction in this build round (see DESIGN.md section 9); not claimed yet', 'C17': 'check under construction in this build round (see DESIGN.md section 9); not claimed yet', 'C19': 'check under construction in this build round (see DESIGN.md section 9); not claimed yet', 'C18': 'relates DOT/JSON text renderings to internal objects: no run-time input, constant or schedule for a solver to range over; int->str/re/file output are beyond CrossHair (measured); reading files back would be output testing, another technique'}
+NOT_YET = {'C11': 'check under construction in this build round (see DESIGN.md section 9); not claimed yet', 'C13': 'check under construction in this build round (see DESIGN.md section 9); not claimed yet', 'C14': 'check under construction in this build round (see DESIGN.md section 9); not claimed yet', 'C15': 'check under construction in this build round (see DESIGN.md section 9); not claimed yet', 'C16': 'check under construction in this build round (see DESIGN.md section 9); not claimed yet', 'C17': 'check under construction in this build round (see DESIGN.md section 9); not claimed yet', 'C19': 'check under construction in this build round (see DESIGN.md section 9); not claimed yet', 'C18': 'relates DOT/JSON text renderings to internal objects: no run-time input, constant or schedule for a solver to range over; int->str/re/file output are beyond CrossHair (measured); reading files back would be output testing, another technique'}
 
 
 def main() -> None:
